@@ -7,7 +7,7 @@
 #include "gram.h"
 #include "sx.h"
 
-#define O_MAXN 13
+#define O_MAXN 17
 static int seq[O_MAXN]; static int seqn;
 
 /* ---------------- derivability: der[X][i][j]  <=>  X =>* seq[i..j) */
